@@ -162,6 +162,14 @@ func runC17(c *Ctx) {
 	}
 	for _, st := range fieldStores(np, peekT, "orig") {
 		ok, _ := allOrigins(st.Val, oIsValue(np.Params[0]))
+		if !ok {
+			// the target kept as the bound method value r.Close
+			if mc, isMC := st.Val.(*ssa.MakeClosure); isMC && len(mc.Bindings) == 1 {
+				if bf, isF := mc.Fn.(*ssa.Function); isF && bf.Name() == "Close$bound" {
+					ok, _ = allOrigins(mc.Bindings[0], oIsValue(np.Params[0]))
+				}
+			}
+		}
 		c.obI("R17.1", st, "close-target-is-original", ok, "the close target is the original body", "value "+describe(st.Val))
 	}
 	// Read: delegates only to underlying
